@@ -1,8 +1,16 @@
 import SpecterModel.C03.Churn
+import SpecterModel.C02.Upd
+import SpecterModel.C02.GenUpd
 /-!
 C02 driver: ring model + SPEC at quiescent points (after repair to a fixpoint) on the
 IMPLEMENTATION's dump: predecessor exact, successor list = the true successors in ring order
 (then the node itself when the ring is smaller than the list), fingers = true owners of their targets.
+
+`upd` lines: overlapping stabilize runs on ONE node publishing their successor lists (model `C02.Upd`, program =
+the accesses of the CURRENT source as extracted by `extract c02-lines`, executed by the harness-side simulator
+under an explicit schedule). SPEC is decided from the reported outcome alone: after the overlapping runs have
+finished, one further stabilize run that computed the newest (= true) successor list must leave that list
+published; the model comparison (DIFF) comes second.
 -/
 namespace Specter.C02
 open Specter.Util Specter.Ring Specter.Churn
@@ -64,8 +72,62 @@ def convergedCheck (d : String) : Option String :=
         | some none, some o => some s!"finger: node {nd.id} finger {i+1} is nil, owner of {target} is {o}"
         | _, _ => none)
 
+/-! ### overlapping publications of the successor list (`upd` lines) -/
+
+def parseNats (s : String) : Option (List Nat) :=
+  if s == "-" then some [] else (s.splitOn ",").mapM (·.toNat?)
+
+/-- after the explicit schedule the remaining runs are executed to their end: always the lowest enabled run -/
+def updDrain (prog : Upd.Prog) : Nat → Upd.State → Upd.State
+  | 0, s => s
+  | f + 1, s =>
+    match (List.range s.ths.length).find? (fun i =>
+        match s.ths[i]? with
+        | some t => (Upd.stepT Upd.lineHash prog i t s.sh).isSome
+        | none => false) with
+    | none => s
+    | some i => updDrain prog f (Upd.step Upd.lineHash prog s i)
+
+/-- model outcome of an `upd` line, in the text form of the harness -/
+def updModel (prog : Upd.Prog) (v0 : Nat) (views : List Nat) (rv : Nat) (sched : List Nat) : String :=
+  let s := Upd.run Upd.lineHash prog (Upd.init Upd.lineHash v0 views) sched
+  let s := updDrain prog (views.length * (prog.length + 1)) s
+  if Upd.allDone prog s && s.sh.owner.isNone then
+    let r := (Upd.repair Upd.lineHash prog s rv).2
+    s!"{s.sh.hashVar} {s.sh.listVar} done | {r.hashVar} {r.listVar}"
+  else
+    s!"{s.sh.hashVar} {s.sh.listVar} stuck | - -"
+
+/-- the property, judged on the reported outcome only -/
+def updSpec (views : List Nat) (rv : Nat) (rhs : String) : Option String :=
+  match (rhs.splitOn " ").filter (· ≠ "") with
+  | [_, l, "stuck", "|", _, _] =>
+    some s!"stuck: overlapping stabilize runs with successor-list views {views} never all finish (a run waits for ever for the successor lock); published list stays {l}"
+  | [_, _, "done", "|", h', l'] =>
+    if l'.toNat? == some rv then none
+    else some s!"frozen: after the overlapping stabilize runs (successor-list views {views}) have finished, one further stabilize run that computed the true successor list {rv} leaves list {l'} published (stored hash {h'}, hash of list {rv} is {Upd.lineHash rv}): the node never converges to its true successors"
+  | _ => some s!"unreadable outcome {rhs}"
+
+def updStep (toks : List String) (rhs : String) : Verdict :=
+  match toks with
+  | ["updprog"] =>
+    let m := Upd.progTok Gen.C02.updateProg
+    if rhs == m then .ok else .diff m
+  | ["upd", p, v0, vs, rv, sc] =>
+    match Upd.parseProg p, v0.toNat?, parseNats vs, rv.toNat?, parseNats sc with
+    | some prog, some v0, some views, some rv, some sched =>
+      match updSpec views rv rhs with
+      | some w => .spec w
+      | none =>
+        let m := updModel prog v0 views rv sched
+        if m == rhs then .ok else .diff m
+    | _, _, _, _, _ => .bad "upd: unparsable arguments"
+  | _ => .bad "upd: arity"
+
 def step (s : DState) (toks : List String) (rhs : String) : DState × Verdict :=
   match toks with
+  | "upd" :: _ => (s, updStep toks rhs)
+  | ["updprog"] => (s, updStep toks rhs)
   | ["quiet"] =>
     let (_, d) := splitRhs rhs
     match convergedCheck d with
